@@ -3,21 +3,42 @@ package main
 import (
 	"fmt"
 	"go/token"
+	"go/types"
 	"os"
 	"sort"
+	"strings"
 
 	"golang.org/x/tools/go/ssa"
 )
 
 func init() {
 	register("C03", checkC03,
-		"placeholder",
-		"placeholder")
+		"Crash- and hang-freedom clauses that are visible in the shape of the code: (LOOP) scanner progress - a path-partitioned abstract interpretation of the three scanners (net input consumption since the loop header, look-ahead cell, eof flag, nil/zero/empty tags, callee summaries to a fixpoint) shows that on every path from a loop header back to it at least one byte was consumed or the loop is left, including error and end-of-input paths; (REC) every cycle of the in-package call graph contains a call that decreases a depth parameter tested against <= 0, descends to a proper part of a tree-shaped argument, is guarded by a growing visited set, or first consumes scanner input; cycles that follow reference fields are reported; (STACK) recursion whose depth is proportional to input nesting must carry a bounded depth counter; (BOUND) every other loop is a range, a counted loop, or a reviewed entry; (CMP) no == / != on two interface{} operands of unknown dynamic type; (NILTYPE) a possibly-nil scanner result stored into the request/schema is nil-checked; (ASSERT) single-value type assertions are on values whose producer fixes the dynamic type; (TABLE) constant tables indexed by a byte or masked value are long enough; (REFLECT) reflected calls get an arity-checked, type-converted argument vector; (NILMAP) map stores are to maps that were just made or are nil-checked; (DEPTH) the depth guard dominates every descent of the type dispatcher.",
+		"Absence of every nil dereference or reflect panic (a general nil-safety proof is out of reach; nilaway is a cross-reference only), wall-clock bounds, readers that return (0, nil) forever (io.Reader contract assumed), and termination of application callbacks.")
 }
 
 func checkC03(c *Ctx, r *Report) {
 	r.rule("C03.LOOP", "every loop of the scanners consumes at least one input byte, or leaves the loop, on every path from its header back to its header (error and end-of-input paths included)")
+	r.rule("C03.REC", "every call-graph cycle contains a measure-decreasing edge (DEC depth, DESC tree descent, VISITED, INPUT consumption)")
+	r.rule("C03.STACK", "input-proportional recursion carries a depth counter compared with a constant")
+	r.rule("C03.BOUND", "non-scanner loops: range, counted, or reviewed table entry")
+	r.rule("C03.CMP", "no equality test between two interface{} values of unknown dynamic type")
+	r.rule("C03.NILTYPE", "readType results reach a struct field only under a nil test (before or immediately after, failing the parse)")
+	r.rule("C03.ASSERT", "x.(T) without ok only where x's producer guarantees T")
+	r.rule("C03.TABLE", "index range of constant-table lookups < table length")
+	r.rule("C03.REFLECT", "reflect.Value.Call: arity check and per-argument Zero / AssignableTo / ConvertibleTo")
+	r.rule("C03.NILMAP", "MapUpdate on a field-held map is preceded by a nil test with initialisation")
+	r.rule("C03.DEPTH", "depth <= 0 exit dominates the dispatcher's descents; entry points pass MaxResolveDepth or a constant")
 	c03Loop(c, r)
+	c03Rec(c, r)
+	c03Bound(c, r)
+	c03Cmp(c, r)
+	c03NilType(c, r)
+	c03Assert(c, r)
+	c03Table(c, r)
+	c03Reflect(c, r)
+	c03NilMap(c, r)
+	c03Depth(c, r)
 }
 
 func c03Loop(c *Ctx, r *Report) {
@@ -186,4 +207,719 @@ func (e *e4Engine) dumpSummaries(filter string) {
 			fmt.Println("    c|rd|deck|eof|res =", o)
 		}
 	}
+}
+
+// ---- REC / STACK -------------------------------------------------------------
+
+func c03Rec(c *Ctx, r *Report) {
+	eng := newEffEngine(c)
+	var roots []*ssa.Function
+	for _, f := range c.allFns {
+		if f.Parent() == nil {
+			roots = append(roots, f)
+		}
+	}
+	eng.run(roots...)
+	sccs := recursionSCCs(c, eng)
+	r.Tables["reference_selectors"] = referenceSelectors
+	var tbl []string
+	for _, sc := range sccs {
+		key := "recursion {" + sc.name() + "}"
+		var desc []string
+		classes := map[string]int{}
+		for _, e := range sc.edges {
+			classes[e.class]++
+			desc = append(desc, fmt.Sprintf("%s -> %s at %s: %s (%s)", fnName(e.from), fnName(e.to), c.pos(e.site.Pos()), e.class, e.why))
+		}
+		tbl = append(tbl, key+": "+fmt.Sprint(classes))
+		cyc := sc.residualCycle()
+		pos := sc.fns[0].Pos()
+		if cyc == nil {
+			r.add("C03.REC", key, pos, Discharged, "every cycle contains a measure-decreasing call", desc...)
+		} else {
+			var w []string
+			for _, e := range cyc {
+				w = append(w, fmt.Sprintf("%s -> %s at %s: %s (%s)", fnName(e.from), fnName(e.to), c.pos(e.site.Pos()), e.class, e.why))
+			}
+			pos = cyc[0].site.Pos()
+			r.add("C03.REC", key, pos, Violated, "a cycle of calls on which nothing decreases: on cyclic data (or unbounded input) the recursion does not terminate and overflows the stack, which cannot be recovered", w...)
+		}
+		// STACK: input-consuming recursion needs a depth bound
+		if classes["INPUT"] > 0 || classes["BOUNDED"] > 0 {
+			// every cycle must pass a call that is dominated by the nesting guard
+			bounded := true
+			{
+				tmp := &recSCC{fns: sc.fns}
+				for _, e := range sc.edges {
+					if e.class == "INPUT" {
+						e2 := e
+						e2.class = "NEUT"
+						tmp.edges = append(tmp.edges, e2)
+					} else {
+						tmp.edges = append(tmp.edges, e)
+					}
+				}
+				if tmp.residualCycle() != nil {
+					bounded = false
+				}
+			}
+			r.add("C03.STACK", "scanner "+key, pos, map[bool]Status{true: Discharged, false: Violated}[bounded],
+				"the recursion depth of the scanner is proportional to the nesting of the input and nothing bounds it: deeply nested input overflows the goroutine stack (fatal, not recoverable)")
+		}
+	}
+	r.Tables["recursion_components"] = tbl
+	r.floor("C03.REC", "recursive components of the call graph", len(sccs), 12)
+}
+
+// ---- BOUND ---------------------------------------------------------------------
+
+var reviewedLoops = map[string]string{
+	"(*parser).readByte":     "retry loop around Reader.Read: io.Reader must not return (0, nil) forever (assumption)",
+	"(*Object).metaCheck":    "for bt.Kind() == reflect.Ptr { bt = bt.Elem() }: pointer types have finite depth",
+	"(*Root).resolveReflect": "goto TOP after replacing an interface type by the concrete *Object found by getReflectType (or nil): at most two rounds, the second one cannot take the *Interface arm",
+}
+
+func c03Bound(c *Ctx, r *Report) {
+	r.Tables["reviewed_loops"] = reviewedLoops
+	n := 0
+	for _, fn := range c.allFns {
+		if isScannerFn(c, fn) && fn.Name() != "readByte" {
+			continue
+		}
+		for li, l := range loopsOf(fn) {
+			n++
+			key := fmt.Sprintf("%s: loop %d (%s)", fnName(fn), li+1, l.head.Comment)
+			pos := loopPos(l)
+			switch {
+			case strings.HasPrefix(l.head.Comment, "rangeindex") || strings.HasPrefix(l.head.Comment, "rangeiter") || strings.HasPrefix(l.head.Comment, "rangechan"):
+				r.add("C03.BOUND", key, pos, Discharged, "range loop: the operand is evaluated once")
+			default:
+				if why, ok := countedLoop(l); ok {
+					r.add("C03.BOUND", key, pos, Discharged, "counted loop: "+why)
+				} else if why, ok := reviewedLoops[fnName(fn)]; ok {
+					r.add("C03.BOUND", key, pos, Discharged, "reviewed: "+why)
+				} else if why, ok := reviewedLoops[fnName(parentOf(fn))]; ok {
+					r.add("C03.BOUND", key, pos, Discharged, "reviewed: "+why)
+				} else {
+					r.add("C03.BOUND", key, pos, Undecided, "a loop that is neither a range nor a counted loop and has no reviewed termination argument")
+				}
+			}
+		}
+	}
+	r.floor("C03.BOUND", "loops outside the scanners", n, 60)
+}
+
+func parentOf(f *ssa.Function) *ssa.Function {
+	for f.Parent() != nil {
+		f = f.Parent()
+	}
+	return f
+}
+
+// ---- CMP ------------------------------------------------------------------------
+
+func isEmptyIface(t types.Type) bool {
+	it, ok := t.Underlying().(*types.Interface)
+	return ok && it.NumMethods() == 0
+}
+
+func c03Cmp(c *Ctx, r *Report) {
+	n, bad := 0, 0
+	for _, fn := range c.allFns {
+		k := 0
+		for _, b := range fn.Blocks {
+			for _, in := range b.Instrs {
+				bo, ok := in.(*ssa.BinOp)
+				if !ok || (bo.Op != token.EQL && bo.Op != token.NEQ) {
+					continue
+				}
+				if !isEmptyIface(bo.X.Type()) || !isEmptyIface(bo.Y.Type()) {
+					continue
+				}
+				n++
+				if isNilConst(bo.X) || isNilConst(bo.Y) {
+					continue
+				}
+				// a side boxed from a comparable static type makes the comparison safe
+				safe := false
+				for _, v := range []ssa.Value{bo.X, bo.Y} {
+					if mi, ok := v.(*ssa.MakeInterface); ok && types.Comparable(mi.X.Type()) {
+						safe = true
+					}
+				}
+				k++
+				if !safe {
+					bad++
+				}
+				r.check("C03.CMP", fmt.Sprintf("%s: interface comparison #%d", fnName(fn), k), bo.Pos(), safe, "both operands are interface{} values of unknown dynamic type: a list- or object-valued operand ([]interface{}, map) makes the comparison panic")
+			}
+		}
+	}
+	r.check("C03.CMP", "package: equality tests on interface{} values examined", token.NoPos, true, fmt.Sprintf("%d comparisons involving interface{} operands, %d unsafe", n, bad))
+	r.floor("C03.CMP", "comparisons with interface{} operands", n, 5)
+}
+
+// ---- NILTYPE ----------------------------------------------------------------------
+
+func c03NilType(c *Ctx, r *Report) {
+	rt := c.fn("(*parser).readType")
+	if rt == nil {
+		r.undecided("C03.NILTYPE", "anchor (*parser).readType", token.NoPos, "not found")
+		return
+	}
+	tolerant := map[string]string{"Inline.Condition": "nil means 'no type condition'; every use tests for nil"}
+	r.Tables["nil_tolerant_fields"] = tolerant
+	n := 0
+	for _, fn := range c.allFns {
+		k := 0
+		for _, ci := range callsIn(fn) {
+			call, ok := ci.(*ssa.Call)
+			if !ok || call.Call.StaticCallee() != rt {
+				continue
+			}
+			res := extractOf(call, 0)
+			if res == nil {
+				continue
+			}
+			// all values derived from res through phis
+			derived := map[ssa.Value]bool{res: true}
+			changed := true
+			for changed {
+				changed = false
+				for _, b := range fn.Blocks {
+					for _, in := range b.Instrs {
+						if phi, ok := in.(*ssa.Phi); ok && !derived[phi] {
+							for _, e := range phi.Edges {
+								if derived[e] {
+									derived[phi] = true
+									changed = true
+								}
+							}
+						}
+					}
+				}
+			}
+			for _, b := range fn.Blocks {
+				for _, in := range b.Instrs {
+					st, ok := in.(*ssa.Store)
+					if !ok || !derived[st.Val] {
+						continue
+					}
+					fa, ok := st.Addr.(*ssa.FieldAddr)
+					if !ok {
+						continue
+					}
+					o, f := fieldOwner(fa.X.Type(), fa.Field)
+					n++
+					k++
+					key := fmt.Sprintf("%s: readType result #%d stored into %s.%s", fnName(fn), k, o, f)
+					if why, ok := tolerant[o+"."+f]; ok {
+						r.check("C03.NILTYPE", key, st.Pos(), true, "nil-tolerant field: "+why)
+						continue
+					}
+					okNil := provenNonNil(st.Val, b, 0)
+					if !okNil {
+						// a nil test of the stored field (or of the value) after the store that fails the parse
+						okNil = nilTestFails(fn, st, fa)
+					}
+					r.check("C03.NILTYPE", key, st.Pos(), okNil, "readType returns (nil, nil) when no type follows; the nil is stored and dereferenced later (Name(), validation)")
+				}
+			}
+		}
+	}
+	r.floor("C03.NILTYPE", "stores of readType results", n, 5)
+}
+
+// nilTestFails: after the store, the function tests the stored location (or value) for nil and the nil branch
+// returns or sets a non-nil error.
+func nilTestFails(fn *ssa.Function, st *ssa.Store, fa *ssa.FieldAddr) bool {
+	want := vpath(fa)
+	for _, b := range fn.Blocks {
+		if len(b.Instrs) == 0 {
+			continue
+		}
+		ifi, ok := b.Instrs[len(b.Instrs)-1].(*ssa.If)
+		if !ok {
+			continue
+		}
+		if !(st.Block() == b || st.Block().Dominates(b)) {
+			continue
+		}
+		g := normGuard(guard{ifi.Cond, true, ifi})
+		v, eq, isN := nilCmp(g.cond)
+		if !isN {
+			continue
+		}
+		same := v == st.Val
+		if u, ok := v.(*ssa.UnOp); ok && u.Op == token.MUL && vpath(u.X) == want {
+			same = true
+		}
+		if !same {
+			continue
+		}
+		nilEdge := 0
+		if eq != g.val {
+			nilEdge = 1
+		}
+		// the nil branch (within two blocks) returns a non-nil error or creates one
+		front := []*ssa.BasicBlock{b.Succs[nilEdge]}
+		for depth := 0; depth < 2; depth++ {
+			var next []*ssa.BasicBlock
+			for _, tb := range front {
+				for _, in := range tb.Instrs {
+					switch t := in.(type) {
+					case *ssa.Return:
+						if len(t.Results) > 0 && !isNilConst(t.Results[len(t.Results)-1]) {
+							return true
+						}
+					case *ssa.Call:
+						if f := calleeObj(t); f != nil && (f.Name() == "Errorf" || f.Name() == "parseError") {
+							return true
+						}
+					}
+				}
+				next = append(next, tb.Succs...)
+			}
+			front = next
+		}
+	}
+	return false
+}
+
+// ---- ASSERT ------------------------------------------------------------------------
+
+func c03Assert(c *Ctx, r *Report) {
+	n := 0
+	for _, fn := range c.allFns {
+		k := 0
+		for _, b := range fn.Blocks {
+			for _, in := range b.Instrs {
+				ta, ok := in.(*ssa.TypeAssert)
+				if !ok || ta.CommaOk {
+					continue
+				}
+				n++
+				k++
+				safe, why := false, ""
+				// producer guarantees the type: call to an in-package constructor that always returns that type
+				if call, ok := ta.X.(*ssa.Call); ok {
+					if cal := call.Call.StaticCallee(); cal != nil && c.inPkg(cal) && c.alwaysStarError(cal) && derefNamed(ta.AssertedType) == "Error" {
+						safe, why = true, "the operand is the result of a constructor that always returns *Error"
+					}
+				}
+				// the same assertion already succeeded with ok on this path
+				for _, f := range assertFacts(b) {
+					if f.holds && sameVal(f.x, ta.X) && types.Identical(f.t, ta.AssertedType) {
+						safe, why = true, "dominated by a successful checked assertion"
+					}
+				}
+				// phi of constructor results
+				if !safe {
+					ls, _ := phiLeaves(ta.X)
+					all := len(ls) > 0
+					for _, l := range ls {
+						call, ok := l.val.(*ssa.Call)
+						if !ok || call.Call.StaticCallee() == nil || !c.alwaysStarError(call.Call.StaticCallee()) {
+							all = false
+						}
+					}
+					if all && derefNamed(ta.AssertedType) == "Error" {
+						safe, why = true, "every source of the operand is a constructor that returns *Error"
+					}
+				}
+				// assertion to an interface on unsafe.Pointer tricks etc. is never safe by construction
+				r.check("C03.ASSERT", fmt.Sprintf("%s: unchecked assertion #%d to %s", fnName(fn), k, typeStr(ta.AssertedType)), ta.Pos(), safe,
+					map[bool]string{true: why, false: "x.(T) without the ok form panics when x holds another type and nothing on this path fixes x's dynamic type"}[safe])
+			}
+		}
+	}
+	r.check("C03.ASSERT", "package: unchecked type assertions examined", token.NoPos, true, fmt.Sprintf("%d", n))
+}
+
+// ---- TABLE -------------------------------------------------------------------------
+
+func c03Table(c *Ctx, r *Report) {
+	n := 0
+	for _, fn := range c.allFns {
+		k := 0
+		for _, b := range fn.Blocks {
+			for _, in := range b.Instrs {
+				var x, idx ssa.Value
+				switch t := in.(type) {
+				case *ssa.Index:
+					x, idx = t.X, t.Index
+				case *ssa.Lookup:
+					x, idx = t.X, t.Index
+				default:
+					continue
+				}
+				s, ok := constStr(x)
+				if !ok {
+					continue
+				}
+				n++
+				k++
+				max := int64(-1)
+				switch {
+				case isByte(idx.Type()):
+					max = 255
+				}
+				// masked: v & m
+				if bo, ok := idx.(*ssa.BinOp); ok {
+					switch bo.Op {
+					case token.AND:
+						if kc, ok := bo.Y.(*ssa.Const); ok {
+							max = kc.Int64()
+						}
+					case token.SHR:
+						if kc, ok := bo.Y.(*ssa.Const); ok {
+							rs := reachSet(b, bo.X, ival{0, 0x10FFFF})
+							hi := int64(0)
+							for _, iv := range rs {
+								if iv.hi > hi {
+									hi = iv.hi
+								}
+							}
+							max = hi >> uint(kc.Int64())
+						}
+					}
+				}
+				if cv, ok := idx.(*ssa.Convert); ok {
+					if isByte(cv.X.Type()) {
+						max = 255
+					}
+				}
+				if max < 0 {
+					// a dominating `len(table) <= int(i)` (false edge) or `int(i) < len(table)` (true edge) bounds the index
+					if guardedByLen(b, idx, int64(len(s))) {
+						max = int64(len(s)) - 1
+					}
+				}
+				if max < 0 {
+					r.undecided("C03.TABLE", fmt.Sprintf("%s: constant table lookup #%d", fnName(fn), k), in.Pos(), "index range not determined")
+					continue
+				}
+				r.check("C03.TABLE", fmt.Sprintf("%s: constant table lookup #%d (table of %d, index up to %d)", fnName(fn), k, len(s), max), in.Pos(), max < int64(len(s)),
+					"the table is shorter than the index range: an input byte beyond it panics with index out of range")
+			}
+		}
+	}
+	r.floor("C03.TABLE", "lookups in constant tables", n, 8)
+}
+
+// ---- REFLECT -------------------------------------------------------------------------
+
+func c03Reflect(c *Ctx, r *Report) {
+	a := c.anchors()
+	if a.reflArgs == nil || a.reflectRes == nil {
+		r.undecided("C03.REFLECT", "anchor: reflection argument builder", token.NoPos, "not found")
+		return
+	}
+	fn := a.reflArgs
+	// arity: a comparison involving NumIn() guards an error return before any append of arguments
+	arity := false
+	for _, b := range fn.Blocks {
+		if len(b.Instrs) == 0 {
+			continue
+		}
+		ifi, ok := b.Instrs[len(b.Instrs)-1].(*ssa.If)
+		if !ok {
+			continue
+		}
+		usesNumIn := false
+		var walk func(v ssa.Value, d int)
+		walk = func(v ssa.Value, d int) {
+			if d > 5 || v == nil {
+				return
+			}
+			switch t := v.(type) {
+			case *ssa.Call:
+				if f := calleeObj(t); f != nil && f.Name() == "NumIn" {
+					usesNumIn = true
+				}
+			case *ssa.BinOp:
+				walk(t.X, d+1)
+				walk(t.Y, d+1)
+			case *ssa.Phi:
+				for _, e := range t.Edges {
+					walk(e, d+1)
+				}
+			}
+		}
+		walk(ifi.Cond, 0)
+		if usesNumIn {
+			arity = true
+		}
+	}
+	r.check("C03.REFLECT", fnName(fn)+": the method's arity is compared with the declared arguments", fn.Pos(), arity, "reflect.Value.Call panics on too few / too many arguments")
+	// each appended argument value (other than the receiver parameter) is Zero(pt), assignable, or converted
+	n := 0
+	for _, ci := range callsIn(fn) {
+		call, ok := ci.(*ssa.Call)
+		if !ok || !isBuiltinCall(call, "append") {
+			continue
+		}
+		elems, known := sliceLitElems(call.Call.Args[1])
+		if !known {
+			continue
+		}
+		for _, el := range elems {
+			if _, isP := el.(*ssa.Parameter); isP {
+				continue
+			}
+			n++
+			ls, _ := phiLeaves(el)
+			okAll := true
+			for _, l := range ls {
+				okLeaf := false
+				if cl, ok := l.val.(*ssa.Call); ok {
+					if f := calleeObj(cl); f != nil && f.Pkg() != nil && f.Pkg().Path() == "reflect" && (f.Name() == "Zero" || f.Name() == "Convert") {
+						okLeaf = true
+					}
+				}
+				if !okLeaf && l.pred != nil {
+					for _, g := range edgeGuards(l.pred, l.phi.Block()) {
+						g = normGuard(g)
+						if cl, ok := g.cond.(*ssa.Call); ok && g.val {
+							if f := calleeObj(cl); f != nil && f.Name() == "AssignableTo" {
+								okLeaf = true
+							}
+						}
+					}
+				}
+				if !okLeaf {
+					okAll = false
+				}
+			}
+			r.check("C03.REFLECT", fmt.Sprintf("%s: reflected argument #%d is the zero value, assignable, or converted", fnName(fn), n), call.Pos(), okAll, "a value of another type is passed to reflect.Value.Call, which panics")
+		}
+	}
+	r.floor("C03.REFLECT", "argument values appended to the reflected call vector", n, 1)
+}
+
+// ---- NILMAP --------------------------------------------------------------------------
+
+func c03NilMap(c *Ctx, r *Report) {
+	n := 0
+	for _, fn := range c.allFns {
+		k := 0
+		for _, b := range fn.Blocks {
+			for _, in := range b.Instrs {
+				mu, ok := in.(*ssa.MapUpdate)
+				if !ok {
+					continue
+				}
+				ld, ok := mu.Map.(*ssa.UnOp)
+				if !ok || ld.Op != token.MUL {
+					continue // locals, parameters, fresh maps
+				}
+				fa, ok := ld.X.(*ssa.FieldAddr)
+				if !ok {
+					continue
+				}
+				o, f := fieldOwner(fa.X.Type(), fa.Field)
+				n++
+				k++
+				key := fmt.Sprintf("%s: store into map %s.%s #%d", fnName(fn), o, f, k)
+				okInit := provenNonNil(ld, b, 0)
+				want := vpath(fa)
+				if !okInit {
+					// a store of a fresh map into the same field dominates, or an `if m == nil { m = make }` whose join dominates
+					for _, b2 := range fn.Blocks {
+						for _, in2 := range b2.Instrs {
+							st, ok := in2.(*ssa.Store)
+							if !ok {
+								continue
+							}
+							if fa2, ok := st.Addr.(*ssa.FieldAddr); !ok || vpath(fa2) != want {
+								continue
+							}
+							if _, isMM := st.Val.(*ssa.MakeMap); !isMM {
+								continue
+							}
+							if b2.Dominates(b) {
+								okInit = true
+							}
+							// conditional initialisation: the nil test's block dominates the update
+							for _, g := range blockGuards(b2) {
+								ng := normGuard(g)
+								if v, eq, ok := nilCmp(ng.cond); ok && eq == ng.val {
+									if u, ok := v.(*ssa.UnOp); ok && vpath(u.X) == want && g.at.Block().Dominates(b) {
+										okInit = true
+									}
+								}
+							}
+						}
+					}
+				}
+				// the object was built in this function with the map initialised (composite literal)
+				if !okInit {
+					if al := rootAlloc(fa.X); al != nil {
+						okInit = true
+					}
+				}
+				// constructor-initialised tables: every composite literal / constructor of the owner initialises the field
+				if !okInit && c.fieldAlwaysInitialised(o, f) {
+					okInit = true
+				}
+				r.check("C03.NILMAP", key, mu.Pos(), okInit, "the map held by this field may be nil here: assignment to an entry of a nil map panics")
+			}
+		}
+	}
+	r.floor("C03.NILMAP", "stores into maps held by struct fields", n, 6)
+}
+
+// fieldAlwaysInitialised: every place in the package that creates a value of the owner type stores a made map into the field
+// (constructor discipline), and no function stores nil into it.
+func (c *Ctx) fieldAlwaysInitialised(owner, field string) bool {
+	created, inited := 0, 0
+	for _, fn := range c.allFns {
+		for _, b := range fn.Blocks {
+			for _, in := range b.Instrs {
+				al, ok := in.(*ssa.Alloc)
+				if !ok {
+					continue
+				}
+				if nt, isN := al.Type().(*types.Pointer).Elem().(*types.Named); !isN || nt.Obj().Name() != owner {
+					continue // cells holding a pointer to the owner are not creations
+				}
+				created++
+				for _, b2 := range fn.Blocks {
+					for _, in2 := range b2.Instrs {
+						if st, ok := in2.(*ssa.Store); ok {
+							if fa, ok := st.Addr.(*ssa.FieldAddr); ok && rootAlloc(fa) == al {
+								if o, f := fieldOwner(fa.X.Type(), fa.Field); o == owner && f == field {
+									if _, isMM := st.Val.(*ssa.MakeMap); isMM {
+										inited++
+									}
+								}
+							}
+						}
+					}
+				}
+			}
+		}
+	}
+	return created > 0 && created == inited
+}
+
+// ---- DEPTH ----------------------------------------------------------------------------
+
+func c03Depth(c *Ctx, r *Report) {
+	a := c.anchors()
+	if a.dispatch == nil || a.entry == nil {
+		r.undecided("C03.DEPTH", "anchors: type dispatcher / entry", token.NoPos, "not found")
+		return
+	}
+	fn := a.dispatch
+	var depthP *ssa.Parameter
+	for _, p := range fn.Params {
+		if bt, ok := p.Type().Underlying().(*types.Basic); ok && bt.Kind() == types.Int {
+			depthP = p
+		}
+	}
+	var guardIf *ssa.If
+	for _, b := range fn.Blocks {
+		if len(b.Instrs) == 0 {
+			continue
+		}
+		if ifi, ok := b.Instrs[len(b.Instrs)-1].(*ssa.If); ok {
+			if v, op, k, ok := intCmp(ifi.Cond); ok && v == ssa.Value(depthP) && ((op == token.LEQ && k == 0) || (op == token.LSS && k == 1)) {
+				// the true edge must leave without descending
+				guardIf = ifi
+			}
+		}
+	}
+	r.check("C03.DEPTH", fnName(fn)+": has an exit on depth <= 0", fn.Pos(), guardIf != nil, "no depth guard")
+	if guardIf != nil {
+		n := 0
+		for _, ci := range callsIn(fn) {
+			cal := ci.Common().StaticCallee()
+			if cal == nil || !(cal == a.list || cal == a.fieldSels || cal == fn) {
+				continue
+			}
+			n++
+			ok := hasGuard(ci.Block(), func(g guard) bool { return g.at == guardIf && !g.val })
+			r.check("C03.DEPTH", fmt.Sprintf("%s: descent #%d (%s) happens only with depth > 0", fnName(fn), n, fnName(cal)), ci.Pos(), ok, "the descent is not dominated by the depth guard")
+		}
+		r.floor("C03.DEPTH", "descents in the type dispatcher", n, 4)
+	}
+	// entry points pass MaxResolveDepth or a constant
+	k := 0
+	for _, efn := range []*ssa.Function{a.entry, c.fn("(*Root).AddEvent")} {
+		if efn == nil {
+			continue
+		}
+		for _, ci := range callsIn(efn) {
+			cal := ci.Common().StaticCallee()
+			if cal == nil || !(cal == a.field || cal == a.dispatch) {
+				continue
+			}
+			for i, arg := range ci.Common().Args {
+				if i >= len(cal.Params) {
+					continue
+				}
+				if bt, ok := cal.Params[i].Type().Underlying().(*types.Basic); !ok || bt.Kind() != types.Int {
+					continue
+				}
+				k++
+				okArg := false
+				if _, isC := arg.(*ssa.Const); isC {
+					okArg = true
+				}
+				if u, ok := arg.(*ssa.UnOp); ok && u.Op == token.MUL {
+					if g, ok := u.X.(*ssa.Global); ok && g.Name() == "MaxResolveDepth" {
+						okArg = true
+					}
+				}
+				r.check("C03.DEPTH", fmt.Sprintf("%s: resolution is entered with a bounded depth (#%d)", fnName(efn), k), ci.Pos(), okArg, "the depth argument is neither MaxResolveDepth nor a constant")
+			}
+		}
+	}
+}
+
+// guardedByLen: the block is only reached when idx (possibly through a conversion) is below n, by a comparison with the constant n
+// (len of a constant string folds to a constant).
+func guardedByLen(b *ssa.BasicBlock, idx ssa.Value, n int64) bool {
+	strip := func(v ssa.Value) ssa.Value {
+		for {
+			cv, ok := v.(*ssa.Convert)
+			if !ok {
+				return v
+			}
+			v = cv.X
+		}
+	}
+	want := strip(idx)
+	// the lower bound: unsigned, or a rune produced by ranging over a string (never negative)
+	nonNeg := false
+	if bt, ok := want.Type().Underlying().(*types.Basic); ok && bt.Info()&types.IsUnsigned != 0 {
+		nonNeg = true
+	}
+	if ex, ok := want.(*ssa.Extract); ok && ex.Index == 2 {
+		if nx, ok := ex.Tuple.(*ssa.Next); ok && nx.IsString {
+			nonNeg = true
+		}
+	}
+	if !nonNeg {
+		return false
+	}
+	return hasGuard(b, func(gd guard) bool {
+		bo, ok := gd.cond.(*ssa.BinOp)
+		if !ok {
+			return false
+		}
+		kx, xk := bo.X.(*ssa.Const)
+		ky, yk := bo.Y.(*ssa.Const)
+		switch {
+		case xk && !yk && strip(bo.Y) == want && kx.Value != nil:
+			// n <= i false, n > i true
+			k := kx.Int64()
+			return k <= n && ((bo.Op == token.LEQ && !gd.val) || (bo.Op == token.GTR && gd.val))
+		case yk && !xk && strip(bo.X) == want && ky.Value != nil:
+			k := ky.Int64()
+			return k <= n && ((bo.Op == token.LSS && gd.val) || (bo.Op == token.GEQ && !gd.val))
+		}
+		return false
+	})
 }
